@@ -56,7 +56,10 @@ class CleanBase(Prop):
     def gen_tree(self, r, sort_names=False, nontest_ids=False):
         """Returns (setup ops, run ops, info). Layout: def/ holds the default multi-entry file (+ stale entries),
         stale standalone and unrelated files; d2/ is never addressed."""
-        tests = r.shuffle([b"TestA", b"TestB", b"TestB/sub", b"TestC10", b"TestC9", b"TestAlpha", b"TestZeta/x#01", b"TestList/list[0]", b"TestB/[k]"])[: r.range(1, 4)]
+        # (sub-test names keep what was passed to t.Run: URLs, paths that path.Clean would change, regexp metacharacters)
+        tests = r.shuffle([b"TestA", b"TestB", b"TestB/sub", b"TestC10", b"TestC9", b"TestAlpha", b"TestZeta/x#01", b"TestList/list[0]", b"TestB/[k]",
+                           b"TestFetch/https://example.com", b"TestFix/./fixtures/a.json", b"TestDir/testdata/", b"TestP/a/../b",
+                           b"TestCalc/sum(a+b)", b"TestQ/what?", b"TestV/v1.0"])[: r.range(1, 4)]
         # tidy_main: the default file needs neither pruning nor sorting (Clean must leave it alone and must not carry
         # anything over from it to the files it examines next)
         tidy_main = r.chance(1, 4)
@@ -73,6 +76,9 @@ class CleanBase(Prop):
             k = r.below(len(entries))
             other = r.choice(entries)[0]
             entries[k] = (entries[k][0], r.choice([b"excerpt:\n", b""]) + b"[" + other + b"]\nquoted text" + r.choice([b"", b"\n\nmore"]))
+        if entries and r.chance(1, 8):
+            # a BIG file: bodies of a few kilobytes, so that the file spans several 4096-byte reader windows
+            entries = [(i_, b"\n".join(b"%s line %03d: the quick brown fox" % (i_.split(b" ")[0][-6:], k_) for k_ in range(r.range(40, 90)))) for i_, _ in entries]
         entries = r.shuffle(entries)
         if sort_names and r.chance(1, 2):
             entries.sort(key=lambda e: e[0])
@@ -220,6 +226,12 @@ class C09(CleanBase):
         for i in range(n):
             r = rng.fork()
             setup, run, info = self.gen_tree(r, sort_names=True)
+            if len(info["tests"]) > 1 and r.chance(1, 4):
+                # "... unless it belongs to a skip-protected test": one test calls snaps.Skip instead of running (its entries and its
+                # descendants' stay, unreported); names with regexp metacharacters and path-like names included
+                ts_ = r.choice(info["tests"])
+                run = [({"op": "skip", "test": o["test"], "form": r.choice(["", "f", "now"])} if (o["op"] == "endtest" and unhx(o["test"]) == ts_) else o)
+                       for o in run if not (o["op"] == "match" and unhx(o["test"]) == ts_)]
             ci, upd = r.choice(G.ENVS)
             sort = r.chance(1, 2)
             colour = r.chance(1, 3)      # Clean prints its summary with ANSI colours
@@ -249,6 +261,8 @@ class C09(CleanBase):
         # what the run actually addressed (robust against shrinking): per (file, test), calls per execution
         calls, execs, stand = {}, {}, {}
         cfgs = []
+        skipped = [unhx(kv["test"]) for n_, kv in ops if n_ == "skip"]
+        prot = lambda i: any(i.rsplit(b" - ", 1)[0] == s_ or i.rsplit(b" - ", 1)[0].startswith(s_ + b"/") for s_ in skipped)
         for name, kv in ops:
             if name == "clean":
                 break
@@ -279,7 +293,7 @@ class C09(CleanBase):
         for path, live in addressed.items():
             ent_b[path] = parse_entries(unhx(before.get(hx(path), "-")))
             ent_a[path] = parse_entries(unhx(after.get(hx(path), "-")))
-            exp_tests += [i for i, _ in ent_b[path] if i not in live and i.startswith(b"Test")]
+            exp_tests += [i for i, _ in ent_b[path] if i not in live and i.startswith(b"Test") and not prot(i)]
         # every stale entry of an addressed file is reported, nothing else
         if sorted(otests) != sorted(exp_tests):
             fails.append({"msg": "obsolete tests reported %s, stale entries are %s" % (sorted(otests), sorted(exp_tests))})
@@ -304,7 +318,7 @@ class C09(CleanBase):
                 if p not in after:
                     fails.append({"msg": "report-only mode removed file %r" % unhx(p)})
         for path, live in addressed.items():
-            stale = [i for i, _ in ent_b[path] if i not in live and i.startswith(b"Test")]
+            stale = [i for i, _ in ent_b[path] if i not in live and i.startswith(b"Test") and not prot(i)]
             if deletes:
                 if sorted(ent_a[path]) != sorted((i, b) for i, b in ent_b[path] if i not in stale):
                     fails.append({"msg": "clean mode: entries of %r after: %s" % (path, [i for i, _ in ent_a[path]])})
